@@ -407,20 +407,36 @@ def get_session(idx, s):
     api = API.__new__(API)
     api.configuration = Configuration([])
     api.reactor = None
-    _S[idx] = (neighbor, neg, api)
+    # a second neighbor of the same daemon with another local address: an API command that matches several peers
+    # hands the same parsed route to every one of them (Configuration.announce_route)
+    _cfg2, other = exa.neighbor_from_text(session_text(s).replace('neighbor 127.0.0.2 {', 'neighbor 127.0.0.3 {').replace('local-address 127.0.0.1;', f'local-address {OTHER_LOCAL};'))
+    _S[idx] = (neighbor, neg, api, other)
     return _S[idx]
 
 
-def emit(neighbor, neg, api, text, via='api'):
-    """text -> bytes through the real code path. Returns (messages, error-string or None)."""
+OTHER_LOCAL = '127.0.0.9'
+
+
+def emit(neighbor, neg, api, text, via='api', others_first=(), others_after=()):
+    """text -> bytes through the real code path. Returns (messages, error-string or None).
+    others_first / others_after: neighbors of the same daemon the command matches as well; they are served the same
+    parsed route objects before / after the neighbor under observation."""
     from exabgp.rib.outgoing import OutgoingRIB
 
     routes = api.api_route(text, 'announce')
     if not routes:
         return None, 'refused'
+    for o in others_first:
+        orib = OutgoingRIB(True, o.rib.outgoing.families)
+        for route in routes:
+            orib.add_to_rib(o.resolve_self(route))
     rib = OutgoingRIB(True, neighbor.rib.outgoing.families)
     for route in routes:
         rib.add_to_rib(neighbor.resolve_self(route))
+    for o in others_after:
+        orib = OutgoingRIB(True, o.rib.outgoing.families)
+        for route in routes:
+            orib.add_to_rib(o.resolve_self(route))
     out = []
     for upd in rib.updates(neighbor.group_updates):
         for raw in upd.messages(neg, True):
@@ -463,8 +479,13 @@ def run_case(sidx, s, r, via='api'):
         if via == 'config':
             msgs, err = emit_config(s, text)
         else:
-            neighbor, neg, api = get_session(sidx, s)
-            msgs, err = emit(neighbor, neg, api, text)
+            neighbor, neg, api, other = get_session(sidx, s)
+            if via == 'api-multi-first':
+                msgs, err = emit(neighbor, neg, api, text, others_first=(other,))
+            elif via == 'api-multi-after':
+                msgs, err = emit(neighbor, neg, api, text, others_after=(other,))
+            else:
+                msgs, err = emit(neighbor, neg, api, text)
     except Exception as e:  # noqa: BLE001
         return [(f'exception:{type(e).__name__}:{_kw(r)}', f'{type(e).__name__}: {e} for "{text}"')], text
     if err == 'refused':
@@ -516,6 +537,18 @@ def worker(args):
                             res['viol'][sig] = (v[0], v[1], v[2] + 1)
                     if len(res['samples']) < 1 and attrs and shard == 0:
                         res['samples'].append({'text': text, 'session': s})
+                    if nh == 'self':
+                        # the same command matching two neighbors with different local addresses, in both orders
+                        for via in ('api-multi-first', 'api-multi-after'):
+                            viols, text = run_case(sidx, s, r, via=via)
+                            res['exec'] += 1
+                            res['multi_neighbor'] = res.get('multi_neighbor', 0) + 1
+                            for sig, what in viols:
+                                sig = 'multi-neighbor:' + sig
+                                v = res['viol'].get(sig)
+                                case = {'session': s, 'route': _jsonable(r), 'via': via}
+                                what = what + f' [{via}: another neighbor with local address {OTHER_LOCAL} served the same command]'
+                                res['viol'][sig] = (what, case, 1) if v is None else (v[0], v[1], v[2] + 1)
     # configuration-file path: the core shapes, no attribute and every single attribute deviation
     for sidx, s in enumerate(sess):
         if sidx % 4:
@@ -586,6 +619,7 @@ def run(ctx: core.Ctx) -> None:
             ctx.count('executions', res['exec'])
             ctx.count('nontrivial', res['nontrivial'])
             ctx.count('config_path_cases', res.get('config_path', 0))
+            ctx.count('multi_neighbor_cases', res.get('multi_neighbor', 0))
             outcomes.update(res['outcomes'])
             for smp in res['samples']:
                 ctx.sample(smp)
@@ -605,4 +639,6 @@ def replay(case):
     r = _from_json(case['route'])
     via = case.get('via', 'api')
     viols, text = run_case(0, s, r, via=via)
+    if via.startswith('api-multi'):
+        return [{'signature': 'multi-neighbor:' + sig, 'what': what} for sig, what in viols]
     return [{'signature': sig if (via == 'api' or sig.startswith('refused:')) else 'config:' + sig, 'what': what} for sig, what in viols]
